@@ -447,6 +447,7 @@ fn output_label_check_n2(o0: u32, o1: u32) {
             if let Some((b, lab)) = wl[w] {
                 assert!(lab.0 == l[w] ^ (if b { delta.0 } else { 0 }), "C03:output-label:label==label0^b*delta");
                 assert!(regs[w] == Some(b), "C03:output-label:accepted-value-is-the-revealed-one");
+                assert!(regs[w] == Some(b) && lab.0 == l[w] ^ (if b { delta.0 } else { 0 }), "C02:output:evaluator-value-accepted-only-together-with-its-own-label");
             }
             idx += 1;
         }
